@@ -4,12 +4,24 @@ NOTES = ('All checks explore the real implementation in /repo (working tree) exh
          'models (vt/ref). VERIF_SEED only rotates non-boundary members of value alphabets; structures are enumerated completely for every seed. '
          'Genuine defects found are fixed in /repo by "fix:" commits or listed in known_findings.json.')
 ENGINES = [
+    {'name': 'E-sched', 'path': 'vt/explore/sched.py', 'serves_properties': ['C20'],
+     'kind_free_text': 'stateless schedule explorer: real threads under a baton scheduler, DFS over choice prefixes with a preemption bound, every execution run to completion, deadlock/horizon detection, double replay of failing schedules'},
     {'name': 'E-enum', 'path': 'vt/astgen.py, vt/par.py, vt/ref/', 'serves_properties': ['C01', 'C02', 'C03', 'C04', 'C08', 'C09', 'C11', 'C12', 'C13', 'C15', 'C16', 'C17', 'C18'],
      'kind_free_text': 'bounded-exhaustive program x data enumerator: all well-typed statements of bounded shape over the live registries x all tables/ledgers of bounded size over a value alphabet, executed on the real implementation and compared with a reference interpreter'},
     {'name': 'E-bfs', 'path': 'vt/explore/bfs.py', 'serves_properties': ['C10', 'C19'],
      'kind_free_text': 'explicit-state breadth-first search over operation histories on the product (real object, reference model) with canonical-state deduplication and closure detection'},
 ]
 CHECKS = {
+    'C20': {
+        'engine': 'E-sched',
+        'technique': 'stateless model checking of real threads under a controlled baton scheduler: all interleavings of row/sub-expression yield points for pairs, preemption-bounded for triples, line granularity in thorough',
+        'design_ref': 'DESIGN.md section 4, C20',
+        'text': '10 statements (balance twice per row, aggregates, IN- and FROM-subqueries, shared parsed statements with named/positional parameters, #entries, OPEN/CLOSE, harness table) x 3 '
+                'configurations (one shared connection, separate connections over the same entries, different ledgers): ALL interleavings of the yield points (a harness BQL function between '
+                'sub-expressions and in WHERE, a harness table iterator) for all 55 pairs, <= 2 preemptions for 63 (quick) / all 220 (thorough) triples; thorough adds sys.settrace line granularity '
+                '(1 preemption for all pairs, 2 for the pairs touching shared state). Oracle: every thread obtains exactly its serial rows and description; no deadlock; failing schedules replay identically.',
+        'note': 'Trusted: CPython threading primitives used by the baton. Preemption inside one source line and CPython-internal races are not modelled; a racy canary table proves the explorer is not vacuous on every run.',
+    },
     'C04': {
         'engine': 'E-enum',
         'technique': 'exhaustive enumeration of every overload in the live operator/function registries x every argument type instantiation, composed to depth 2, with a datatype invariant on every result cell',
